@@ -7,14 +7,15 @@
       consumer: for { select { case e := <-progChan: ...      (loop of cmd/wrgl)
                                case d, ok := <-dataChan: if !ok { break loop } ... } }
                 pt.Stop()
-      Stop():   t.ticker.Stop(); close(t.done)              ([Close], the code as it is)
-                t.ticker.Stop(); t.done <- true             ([Handshake], seeded variant)
-                Close + `select { case t.c <- ev: case <-t.done: return }` in the goroutine
-                                                             ([CloseSelect], leak-free form)
+      Stop():   t.ticker.Stop(); close(t.done)
+      forms:    [CloseSelect]  the code as it is now (fix "progress tracker goroutine blocked forever ..."):
+                               the tick send is `select { case t.c <- ev: case <-t.done: return }`
+                [Close]        before that fix: plain `t.c <- ev` (goroutine can stay parked for ever)
+                [Handshake]    seeded variant: Stop does `t.done <- true` instead of close(t.done)
 
     A schedule is any list of actions; a disabled action is a stuttering step. *)
 From W.lib Require Import Tree.
-From Coq Require Import Arith.
+From Coq Require Import Arith String.
 
 Inductive tform := Handshake | Close | CloseSelect.
 Inductive gst := GSel | GSend | GDone.                 (* the tracker goroutine *)
@@ -72,3 +73,7 @@ Definition goroutine_done (s : tst) : bool := match tg s with GDone => true | _ 
 Definition consumer_enabled (f : tform) (s : tst) : Prop :=
   exists s', tstep f TData s = Some s' \/ tstep f TStop s = Some s'.
 Definition tenabled (f : tform) (s : tst) : Prop := exists a s', tstep f a s = Some s'.
+
+(** translator constant [progress_tick_send]: how the goroutine sends a tick *)
+Definition progress_ok (tick_send : string) : bool := String.eqb tick_send "select-with-done".
+Definition progress_form (tick_send : string) : tform := if progress_ok tick_send then CloseSelect else Close.
